@@ -246,28 +246,29 @@ func complete(p *gpbft.PartialGMessage, chain *gpbft.ECChain) {
 	pmsg.VerifInferJustificationVoteValue(p)
 }
 
-// rawStrip: when set, only the vote value is removed and the justification is left as the sender wrote it
-// (a peer is free to send such a partial message; the production stripper also zeroes the justification value).
-var rawStrip = false
-
-func toPartial(m *gpbft.GMessage, raw bool) (*gpbft.PartialGMessage, error) {
-	if !raw {
+// strip modes: 0 the production stripper; 1 only the vote value is removed, the justification is left as the sender
+// wrote it; 2 nothing is removed — the partial message still carries its chain next to the announced key (a relay
+// is free to send either; the receiver must not trust what it did not ask for).
+func toPartial(m *gpbft.GMessage, mode int) (*gpbft.PartialGMessage, error) {
+	if mode == 0 {
 		return pmsg.VerifToPartial(copyMsg(m))
 	}
 	c := copyMsg(m)
 	p := &gpbft.PartialGMessage{GMessage: c}
 	if !c.Vote.Value.IsZero() {
 		p.VoteValueKey = c.Vote.Value.Key()
-		c.Vote.Value = &gpbft.ECChain{}
+		if mode == 1 {
+			c.Vote.Value = &gpbft.ECChain{}
+		}
 	}
 	return p, nil
 }
 
 func partial(v *gpbft.VerifValidator, m *gpbft.GMessage, key gpbft.ECChainKey) (gpbft.PartiallyValidatedMessage, string) {
-	return partialMode(v, m, key, false)
+	return partialMode(v, m, key, 0)
 }
 
-func partialMode(v *gpbft.VerifValidator, m *gpbft.GMessage, key gpbft.ECChainKey, raw bool) (pv gpbft.PartiallyValidatedMessage, cls string) {
+func partialMode(v *gpbft.VerifValidator, m *gpbft.GMessage, key gpbft.ECChainKey, raw int) (pv gpbft.PartiallyValidatedMessage, cls string) {
 	defer func() {
 		if r := recover(); r != nil {
 			cls = fmt.Sprintf("panic:%v", r)
@@ -282,7 +283,7 @@ func partialMode(v *gpbft.VerifValidator, m *gpbft.GMessage, key gpbft.ECChainKe
 	return pv, classify(err)
 }
 
-func twoStage(v *gpbft.VerifValidator, m *gpbft.GMessage, key gpbft.ECChainKey, chain *gpbft.ECChain, raw bool) (cls string) {
+func twoStage(v *gpbft.VerifValidator, m *gpbft.GMessage, key gpbft.ECChainKey, chain *gpbft.ECChain, raw int) (cls string) {
 	defer func() {
 		if r := recover(); r != nil {
 			cls = fmt.Sprintf("panic:%v", r)
@@ -375,13 +376,13 @@ func (w *mgrWorld) immediate(p *gpbft.PartialGMessage, chain *gpbft.ECChain) boo
 }
 
 // oneShot: what one-shot validation says about the completed message.
-func oneShot(v *gpbft.VerifValidator, m *gpbft.GMessage, chain *gpbft.ECChain, raw bool) string {
+func oneShot(v *gpbft.VerifValidator, m *gpbft.GMessage, chain *gpbft.ECChain, raw int) string {
 	p, err := toPartial(m, raw)
 	if err != nil {
 		return "other"
 	}
 	complete(p, chain)
-	if chain.IsZero() {
+	if chain.IsZero() && raw != 2 {
 		p.Vote.Value = &gpbft.ECChain{}
 	}
 	return validate(v, p.GMessage)
@@ -624,17 +625,21 @@ func main() {
 					}{{"original", m.Vote.Value}, {"other", chains[3]}, {"bottom", chains[1]}, {"malformed", chains[4]}}
 					for _, kc := range keyChoices {
 						for _, cc := range chainChoices {
-							for _, raw := range []bool{false, true} {
+							for _, raw := range []int{0, 1, 2} {
 								evals.Add(1)
 								two := twoStage(newValidator(pr, 64), m, kc.key, cc.chain, raw)
 								one := oneShot(newValidator(pr, 64), m, cc.chain, raw)
-								wantAccept := kc.key == cc.chain.Key() && one == "accept"
+								eff := cc.chain // the chain the completed message actually carries
+								if raw == 2 && cc.chain.IsZero() {
+									eff = m.Vote.Value // nothing to complete with: the chain left in the message stays
+								}
+								wantAccept := kc.key == eff.Key() && one == "accept"
 								if len(two) > 5 && two[:5] == "panic" {
 									report("two-stage-panics", fmt.Sprintf("%s announced key %s, completing chain %s: %s", it.label, kc.name, cc.name, two), it, nil)
 									return
 								}
 								if (two == "accept") != wantAccept {
-									report("two-stage-differs-from-one-shot:"+kc.name+"/"+cc.name, fmt.Sprintf("%s (%s): announced key %s, completed with chain %s (justification left as sent: %v): two-stage verdict %s, one-shot verdict of the completed message %s (keys equal: %v)", it.label, it.spec, kc.name, cc.name, raw, two, one, kc.key == cc.chain.Key()), it, map[string]any{"key": kc.name, "chain": cc.name, "raw_strip": raw})
+									report("two-stage-differs-from-one-shot:"+kc.name+"/"+cc.name, fmt.Sprintf("%s (%s): announced key %s, completed with chain %s (strip mode %d: 0 production, 1 justification left as sent, 2 chain left in the message): two-stage verdict %s, one-shot verdict of the completed message %s (keys equal: %v)", it.label, it.spec, kc.name, cc.name, raw, two, one, kc.key == eff.Key()), it, map[string]any{"key": kc.name, "chain": cc.name, "raw_strip": raw})
 									return
 								}
 							}
@@ -715,7 +720,7 @@ func main() {
 	for _, i := range []int{0, len(items) / 2, len(items) - 1} {
 		chk.Sample(map[string]any{"message": items[i].label, "spec": items[i].spec.String(), "valid": items[i].valid})
 	}
-	chk.Set("rule", "one valid message per (step, round, value kind, justification kind) and every single and every pair of field deviations (sender class, instance, round, step, value, supplemental data, signature, ticket, justification presence and each justification field incl. signer sets and aggregate), each re-signed so that exactly the deviated rule is exercised; x 20 progress states on a fresh production validator; cache histories: every sequence of <=2 earlier full/partial validations of the message, its base and sibling deviations, or a group eviction, with cache sizes 64 and 2; C13: 3 announced keys x 4 completing chains through PartiallyValidate+FullyValidate vs one-shot, completion by the production inference; plus, for every message that passes the partial stage under its genuine key, completion by a real started PartialMessageManager on both of its routes (buffered until the chain is discovered; CompleteMessage with the chain already known), verdict compared with one-shot and bytes with the original")
+	chk.Set("rule", "one valid message per (step, round, value kind, justification kind) and every single and every pair of field deviations (sender class, instance, round, step, value, supplemental data, signature, ticket, justification presence and each justification field incl. signer sets and aggregate), each re-signed so that exactly the deviated rule is exercised; x 20 progress states on a fresh production validator; cache histories: every sequence of <=2 earlier full/partial validations of the message, its base and sibling deviations, or a group eviction, with cache sizes 64 and 2; C13: 3 announced keys x 4 completing chains x 3 strip modes (production; justification left as sent; chain left in the message) through PartiallyValidate+FullyValidate vs one-shot, completion by the production inference; plus, for every message that passes the partial stage under its genuine key, completion by a real started PartialMessageManager on both of its routes (buffered until the chain is discovered; CompleteMessage with the chain already known), verdict compared with one-shot and bytes with the original")
 	chk.Assume("fake signing backend; fixed committee {10^6,10^6,10^6,1}; production cachingValidator reached through an injected constructor with harness-controlled progress and cache geometry")
 	chk.Assume("concurrent validation from many goroutines is not explored by this check (sequential histories only)")
 	chk.Finish()
